@@ -64,5 +64,6 @@ var benigns = []benign{
 	{"C20-b1", "C20", "grogu/signaller/signaller.go", "thresholdTime", "earliest", true, "rename a local", nil},
 	{"C20-b2", "C20", "grogu/signaller/signaller.go", "	if oldPrice.SignalPriceStatus != newPrice.Status {", "	if newPrice.Status != oldPrice.SignalPriceStatus {", false, "swap the operands of !=", nil},
 	{"C06-b4", "C06", "x/feeds/keeper/keeper_price.go", "checkHavePrice", "isFreshPrice", true, "rename an anchored private function (recovered by signature)", nil},
+	{"C06-b5", "C06", "x/feeds/types/median.go", "\treturn sdkmath.NewInt(32)\n", "\tfactor := sdkmath.NewInt(32)\n\treturn factor\n", false, "constant table returned through a once-defined temporary", nil},
 	{"C08-b3", "C08", "x/tunnel/keeper/helper.go", "calculateDeviationBPS", "deviationInBPS", true, "rename an anchored private function (recovered by signature)", nil},
 }
